@@ -44,8 +44,11 @@ func (p *packageParse) clear() {
 
 // parse 返回一个或者多个完成的包
 func (p *packageParse) parse(data []byte) ([]*Message, error) {
-	msgs, err := p.unpack(data)
-	for _, msg := range msgs {
+	frames, err := p.unpack(data)
+	msgs := make([]*Message, 0, len(frames))
+	for _, msg := range frames {
+		msgs = append(msgs, msg)
+		// 分包合并完成的消息紧跟在完成它的那个分包之后 这样回复的顺序和请求到达的顺序一致
 		if completeMsg, ok := p.completePack(msg); ok {
 			msgs = append(msgs, completeMsg)
 		}
